@@ -1,19 +1,23 @@
 #!/bin/bash
 # seedtest.sh <seed-id> <patch.diff> <property> [more properties...]
-# Applies a seeded change to /repo, runs the given properties' quick checks, undoes it.
+# Applies a seeded change to a private scratch worktree of /repo's HEAD (so /repo itself, which background
+# sweeps may be using, stays untouched; equivalent to `git -C /repo apply` + `checkout -- .`), runs the given
+# properties' quick checks against that tree (VERIF_REPO) and removes the worktree.
+# Evidence and replays of these runs go to /tmp, never into the committed directories.
 set -u
-id=$1; patch=$2; shift 2
-cd /repo || exit 2
-git diff --quiet || { echo "repo dirty"; exit 2; }
+id=$1; patch=$(readlink -f "$2"); shift 2
+wt=/tmp/seedtest-wt-$id-$$
+git -C /repo worktree add -q --detach "$wt" HEAD || exit 2
+trap 'git -C /repo worktree remove --force "$wt" >/dev/null 2>&1; rm -rf "$wt"' EXIT
+cd "$wt" || exit 2
 git apply "$patch" || { echo "patch does not apply"; exit 2; }
 export GOFLAGS=-mod=mod GOPROXY=off GOSUMDB=off
 go build ./... && go test -vet=off -count=1 ./util/... >/dev/null 2>&1 && echo "seed $id: builds, baseline passes" || echo "seed $id: BUILD/BASELINE FAILS"
 cd /verif
-export VERIF_EVIDENCE_DIR=/tmp/seedtest-evidence VERIF_REPLAY_DIR=/tmp/seedtest-replays
+export VERIF_REPO=$wt VERIF_EVIDENCE_DIR=/tmp/seedtest-evidence VERIF_REPLAY_DIR=/tmp/seedtest-replays
 mkdir -p $VERIF_EVIDENCE_DIR $VERIF_REPLAY_DIR
 for p in "$@"; do
   out=$(VERIF_BUDGET=${BUDGET:-60} ./check $p --tier quick 2>&1 | grep -v "^    ")
   echo "$out" | grep "^check\|^  C\|KNOWN\|UNREP" | head -6 | cut -c1-400
   if echo "$out" | grep -q "^VIOLATION"; then echo "RESULT seed=$id property=$p CAUGHT"; else echo "RESULT seed=$id property=$p MISSED"; fi
 done
-git -C /repo checkout -- .
